@@ -16,11 +16,21 @@ use std::pin::Pin;
 use std::sync::{Arc, Mutex};
 use std::task::{Context, Poll};
 
-struct SharedW(Arc<Mutex<Vec<u8>>>);
+/// In-memory writer.  `mode` 0 accepts everything offered, 1 accepts one byte per call, 2 cycles through small sizes:
+/// a writer may take any non-empty prefix of what it is offered (a socket whose send buffer is nearly full does), and
+/// since it never returns `Pending` the polls of a behaviour keep their meaning.
+struct SharedW(Arc<Mutex<Vec<u8>>>, u8, usize);
 impl futures_io::AsyncWrite for SharedW {
-    fn poll_write(self: Pin<&mut Self>, _cx: &mut Context<'_>, buf: &[u8]) -> Poll<std::io::Result<usize>> {
-        self.0.lock().unwrap().extend_from_slice(buf);
-        Poll::Ready(Ok(buf.len()))
+    fn poll_write(mut self: Pin<&mut Self>, _cx: &mut Context<'_>, buf: &[u8]) -> Poll<std::io::Result<usize>> {
+        self.2 += 1;
+        let k = match self.1 {
+            0 => buf.len(),
+            1 => 1,
+            _ => [1usize, 2, 3, 5, 7, 4][self.2 % 6],
+        }
+        .min(buf.len());
+        self.0.lock().unwrap().extend_from_slice(&buf[..k]);
+        Poll::Ready(Ok(k))
     }
     fn poll_flush(self: Pin<&mut Self>, _cx: &mut Context<'_>) -> Poll<std::io::Result<()>> {
         Poll::Ready(Ok(()))
@@ -66,7 +76,7 @@ pub fn run_replay(args: &Args, mut out: Out) {
         let e: Value = serde_json::from_str(&line).unwrap();
         let (sender, response) = Response::event_stream();
         let sink = Arc::new(Mutex::new(Vec::new()));
-        let w = SharedW(sink.clone());
+        let w = SharedW(sink.clone(), (sid % 3) as u8, 0);
         // the future owns the response, so the receiver is dropped when serialisation ends (as in handle_http_conn_once)
         let mut fut: Option<Pin<Box<dyn Future<Output = Result<(), HttpError>>>>> = Some(Box::pin(async move {
             let r = response;
